@@ -466,6 +466,22 @@ class MustWrites:
             ps = E.lv(tgt, fn)
             if len(ps) == 1:
                 out |= ps
+        elif n.kind == 'new' and ir.is_expr(n.e) and len(n.e.get('place') or []) == 1 and depth < 10:
+            # placement new: the object constructed in place gets every member its constructor definitely writes
+            tgt = ir.strip(n.e['place'][0])
+            if tgt['k'] == 'un' and tgt['op'] == '&':
+                tgt = tgt['e']
+            ps = E.lv(tgt, fn)
+            init = ir.strip(n.e['init']) if ir.is_expr(n.e.get('init')) else None
+            g = self.F.fn(init['fn']) if init is not None and init.get('k') == 'ctor' and init.get('fn') is not None else None
+            if len(ps) == 1:
+                base = next(iter(ps))
+                if g is not None:
+                    for p_ in self.of_function(g, depth + 1):
+                        if p_[0] == 'this':
+                            out.add(base + p_[1:])
+                else:
+                    out.add(base + ('*',))
         elif n.kind in ('call', 'ctor', 'dtor') and depth < 10:
             e = n.e if n.kind != 'dtor' else None
             if n.kind == 'dtor':
